@@ -42,10 +42,52 @@ def mkOracle (tbl : List (String × StrO)) : Oracle :=
 def kindsTag (j : J) : List String :=
   (j.aget "filters").map fun f => "kind:" ++ f.sget "kind"
 
-/-- does a site reported by the harness belong to the guard the model blames? -/
-def siteMatches (guard site : String) : Bool :=
-  let k := ((guard.splitOn ".").headD "").toLower
-  (site.toLower.splitOn k).length > 1 || (k == "pipeline") || (k == "retry" && (site.splitOn "proxy").length > 1)
+def has (s sub : String) : Bool := (s.splitOn sub).length > 1
+
+/-- What the harness observed about a crash. -/
+structure Crash where
+  phase : String
+  site : String
+  msg : String
+  frames : List String
+
+def Crash.onStack (c : Crash) (sub : String) : Bool := c.frames.any (has · sub)
+
+/-- Does the observed crash (site, message, stack) belong to this modelled guard? Every guard is
+matched only by its own crash site, so that a known finding is never matched by a different crash. -/
+def explains (guard : String) (c : Crash) : Bool :=
+  if guard == "Pipeline.flow.namespace" then
+    has c.msg "protocols.Request is nil" && has c.msg "interface conversion"
+  else if guard == "Retry.waitDuration-overflow" then
+    c.onStack "resilience.(*RetryPolicy).Wrap" && c.onStack "math/rand."
+  else if guard == "RateLimiter.limitRefreshPeriod" then
+    c.onStack "util/ratelimiter.(*RateLimiter).acquirePermission"
+  else if guard == "Validator.signature.accessKeys" then
+    c.onStack "util/signer.(*Signer).Verify"
+  else if guard == "Proxy.retryPolicy" then
+    has c.site "InjectResiliencePolicy" && (has c.msg "retry policy" )
+  else if guard == "Proxy.circuitBreakerPolicy" then
+    has c.site "InjectResiliencePolicy" && (has c.msg "circuitbreaker policy" || has c.msg "circuitBreaker policy")
+  else if guard.startsWith "RequestAdaptor." then has c.site "requestadaptor.(*RequestAdaptor).Init"
+  else if guard.startsWith "ResponseAdaptor." then has c.site "responseadaptor.(*ResponseAdaptor).Init"
+  else if guard == "RequestBuilder.template" || guard == "ResponseBuilder.template" then
+    has c.site "builder.(*Builder).reload"
+  else if has guard ".regex" then c.onStack "regexp.MustCompile"
+  else false
+
+/-- sig of a crash: the failing modelled guard that explains the observed site, else the site. -/
+def attribute (o : Oracle) (j : J) (c : Crash) : Bool × String :=
+  let initPhase := c.phase == "Init" || c.phase == "Inject" || c.phase == "Inherit"
+  let fallback := (false, "panic:" ++ c.phase ++ ":" ++ c.site)
+  if initPhase then
+    match initGuard o j with
+    | some (p, g) =>
+      if (p == c.phase || c.phase == "Inherit") && explains g c then (true, "panic:" ++ p ++ ":" ++ g) else fallback
+    | none => fallback
+  else
+    match (handleGuards o j).eraseDups.find? (explains · c) with
+    | some g => (true, "panic:Handle:" ++ g)
+    | none => fallback
 
 def judge : Judge := liftJudge fun input obs => do
   let specJ ← input.getObjVal? "spec"
@@ -65,7 +107,9 @@ def judge : Judge := liftJudge fun input obs => do
   let crashed := match crash with | .null => false | _ => true
   let phase := optStr crash "phase"
   let site := optStr crash "site"
-  let expected := Json.mkObj [("valid", valid), ("initOK", initOK), ("handleOK", handleOK), ("inheritOK", pipelineInheritOK j),
+  let cr : Crash := { phase := phase, site := site, msg := optStr crash "msg",
+                      frames := (getStrList crash "frames").toOption.getD [] }
+  let expected := Json.mkObj [("valid", valid), ("initOK", initOK), ("handleOK", handleOK),
     ("initGuard", match initGuard o j with | some (p, g) => Json.str (p ++ ":" ++ g) | none => Json.null),
     ("handleGuards", Json.arr ((handleGuards o j).map Json.str).toArray)]
   let tags := kindsTag j ++ [if accepted then "accepted" else "rejected"]
@@ -73,44 +117,31 @@ def judge : Judge := liftJudge fun input obs => do
     ++ (if (j.aget "resilience").isEmpty then [] else ["resilience"])
     ++ (if crashed then ["crash:" ++ phase] else [])
     ++ (if accepted && !initOK then ["hazard:init"] else [])
-    ++ (if accepted && initOK && !pipelineInheritOK j then
-          [(if phase == "Inherit" then "hazard-hit:" else "hazard-idle:") ++ "RateLimiter.duplicate-url-rule"] else [])
     ++ (if accepted && initOK && !handleOK then
-          (handleGuards o j).map (fun g => (if crashed then "hazard-hit:" else "hazard-idle:") ++ g) else [])
+          (handleGuards o j).eraseDups.map (fun g => (if crashed && explains g cr then "hazard-hit:" else "hazard-idle:") ++ g) else [])
   if hasNullElem 12 j then
     -- malformed stream: YAML null in place of an object; accept/reject is not modelled
     pure { agree := true, spec := !(accepted && crashed), expected := expected,
            tags := tags ++ ["null-element"], nontrivial := accepted,
-           sig := if accepted && crashed then "panic:null-element" else "",
+           sig := if accepted && crashed then
+                    (match attribute o j cr with
+                     | (true, g) => g
+                     | (false, g) => if has cr.msg "nil pointer dereference" then "panic:null-element" else g)
+                  else "",
            note := if crashed then optStr crash "msg" ++ " @ " ++ site else "" }
   else if accepted != valid then
     -- accept/reject disagreement: the correspondence is broken (and a crash is still a violation)
     pure { agree := false, spec := !(accepted && crashed), expected := expected, tags := tags ++ ["valid-mismatch"],
-           sig := if accepted && crashed then "panic:" ++ phase ++ ":" ++ site else "",
+           sig := if accepted && crashed then (attribute o j cr).2 else "",
            note := "validation " ++ (if accepted then "accepted" else "rejected: " ++ optStr obs "err")
                    ++ " but model valid=" ++ toString valid }
   else if !accepted then
     pure { agree := true, spec := true, expected := expected, tags := tags, nontrivial := false }
   else
-    let initPhase := phase == "Init" || phase == "Inject" || phase == "Inherit"
     if crashed then
-      let (agree, sig) :=
-        if initPhase then
-          match initGuard o j with
-          | some (p, g) => (p == phase || phase == "Inherit", "panic:" ++ p ++ ":" ++ g)
-          | none =>
-            if phase == "Inherit" && !pipelineInheritOK j then (true, "panic:Inherit:RateLimiter.duplicate-url-rule")
-            else (false, "panic:" ++ phase ++ ":" ++ site)
-        else
-          let gs := (handleGuards o j).eraseDups
-          if !initOK then (false, "panic:" ++ phase ++ ":" ++ site)
-          else match gs.find? (siteMatches · site) with
-            | some g => (true, "panic:Handle:" ++ g)
-            | none =>
-              -- a panic in a deferred function can hide the site of the first one
-              match gs with
-              | [g] => (true, "panic:Handle:" ++ g)
-              | _ => (false, "panic:" ++ phase ++ ":" ++ site)
+      let (agree0, sig) := attribute o j cr
+      -- a Handle crash of a spec whose Init should already have failed is a disagreement
+      let agree := agree0 && (initOK || phase == "Init" || phase == "Inject" || phase == "Inherit")
       pure { agree := agree, spec := false, expected := expected, tags := tags, sig := sig,
              note := optStr crash "msg" ++ " @ " ++ site }
     else
